@@ -8,9 +8,14 @@ require (
 	github.com/ozontech/file.d v0.0.0
 	github.com/ozontech/insane-json v0.1.9
 <<<<<<< HEAD
+<<<<<<< HEAD
 	github.com/prometheus/client_golang v1.16.0
 =======
 >>>>>>> build/C16
+=======
+	github.com/prometheus/client_golang v1.16.0
+	github.com/tidwall/gjson v1.18.0
+>>>>>>> build/C12
 	go.uber.org/zap v1.27.0
 )
 
@@ -66,8 +71,11 @@ require (
 	github.com/rjeczalik/notify v0.9.3 // indirect
 	github.com/ryanuber/go-glob v1.0.0 // indirect
 	github.com/spf13/pflag v1.0.6 // indirect
+<<<<<<< HEAD
 	github.com/stretchr/testify v1.10.0 // indirect
 	github.com/tidwall/gjson v1.18.0 // indirect
+=======
+>>>>>>> build/C12
 	github.com/tidwall/match v1.1.1 // indirect
 	github.com/tidwall/pretty v1.2.1 // indirect
 	github.com/twmb/franz-go v1.20.7 // indirect
